@@ -155,6 +155,9 @@ func (r *run) syncEvent(as []*actor, e Ev) {
 		default:
 			r.deliverResp(c, false)
 		}
+		// one answer at a time: a client may send its next request as soon as it has its answer, and
+		// the numbering of requests must not depend on which client's goroutine is faster
+		synctest.Wait()
 	}
 	synctest.Wait()
 	if r.verbose && noClip {
@@ -260,7 +263,9 @@ func (r *run) finalDrain() {
 	w := r.w
 	r.logf("heal + drain")
 	for _, h := range r.held {
+		synctest.Wait()
 		r.deliverResp(h.c, false)
+		synctest.Wait()
 	}
 	r.held = nil
 	r.drainLag(nil)
